@@ -1,11 +1,11 @@
 """Per-property claims (source of MANIFEST.json; tools/gen_manifest.py renders it)."""
 HOOK_COMMITS = []
 ENGINES = [
-    {"name": "lean-model", "path": "lean/", "serves_properties": ["C01", "C02", "C03", "C04", "C05", "C07", "C09", "C13", "C11", "C12", "C16", "C17", "C20"],
+    {"name": "lean-model", "path": "lean/", "serves_properties": ["C01", "C02", "C03", "C04", "C05", "C06", "C07", "C09", "C13", "C11", "C12", "C16", "C17", "C20"],
      "kind_free_text": "Lean 4 library Dbus (Spec, Model, Proofs, Props) + compiled line-protocol driver dbus-model"},
-    {"name": "tabulator", "path": "gen/", "serves_properties": ["C01", "C02", "C03", "C04", "C05", "C07", "C09", "C13", "C11", "C12", "C16", "C17", "C20"],
+    {"name": "tabulator", "path": "gen/", "serves_properties": ["C01", "C02", "C03", "C04", "C05", "C06", "C07", "C09", "C13", "C11", "C12", "C16", "C17", "C20"],
      "kind_free_text": "C translation units that #include repo sources and print finite tables; rendered to lean/Dbus/Generated"},
-    {"name": "h-lib", "path": "harness/lib/", "serves_properties": ["C01", "C02", "C03", "C04", "C05", "C07", "C09", "C13", "C11", "C12", "C16", "C17", "C20"],
+    {"name": "h-lib", "path": "harness/lib/", "serves_properties": ["C01", "C02", "C03", "C04", "C05", "C06", "C07", "C09", "C13", "C11", "C12", "C16", "C17", "C20"],
      "kind_free_text": "in-process C harnesses linked against the ASan/UBSan build of the working tree"},
 ]
 PENDING = "not implemented yet in this round (planned, see DESIGN.md §4/§7); no check is claimed"
@@ -51,6 +51,22 @@ CHECKS = {
                 "Five limit profiles with small limits (rules 3, names 3, completed 3 / per user 2 with connections of three uids, replies 2, "
                 "max_message_size 1024 with messages of exactly limit-9..limit+64 bytes and shuffled header fields).",
         "note": "max_incomplete_connections / auth timeouts (not-yet-authenticated connections) are outside the model: they concern the listener, not step; recorded as partial.",
+    },
+    "C06": {
+        "text": "The documented evaluation is written out in Lean (Props/C06.lean, namespace Documented, from doc/dbus-daemon.1.xml.in: by-value "
+                "attribute matches, the interface warning, eavesdrop and requested_reply modifiers, send_broadcast, destination/sender = "
+                "any queued owner, prefixes by dot-separated words, fd-count range, last matching rule decides, nothing allowed by default). "
+                "Proved for every rule, rule list, message view, reply state and peer: the code's rule applicability and decisions for send, "
+                "receive and own equal the documented ones (send/receive/own_rule_matches_as_documented, *_decision_as_documented) under "
+                "the explicit hypothesis that the message carries the fields named by path/member/error attributes; the other case is the "
+                "recorded departure F16 (f16_witness, reproduced on the daemon each run). Contexts are concatenated default, groups, user, "
+                "console, mandatory; a later context wins whenever one of its rules matches (later_context_wins, lastVerdict_append); the gate "
+                "admits a message between registered connections iff the sender's send rules and the recipient's receive rules both allow it, "
+                "refuses only with AccessDenied, a denied message reaches no one and a denied RequestName changes nothing. " + BUS_TIE +
+                "Configurations are generated (2-12 random rules over all attributes in default/mandatory/user/group contexts, connections of "
+                "three uids, plus a destination-rule profile with queued owners); F17 (policy optimizer dropping rules) was found by this "
+                "check and repaired in /repo.",
+        "note": "The harness appends four mandatory allow rules it needs for its own barriers (Peer/NameHasOwner/Hello calls to the bus, receiving from the bus); at_console contexts and SELinux/AppArmor mediation are not exercised. config-parser attribute handling is modelled (ruleOfAttrs) and compared, not proved against the DTD.",
     },
     "C09": {
         "text": "Proved in Lean for every state and message: under a policy that lets replies out only when requested (stated as a "
